@@ -628,12 +628,12 @@ def run(ctx, res):
     for h in corpus():
         streams.append(("corpus", h))
     rng = ctx.sub_rng("wf")
-    for _ in range(ctx.n(500, 12000)):
+    for _ in range(ctx.n(1500, 30000)):
         streams.append(("random", gen_history(rng)))
     rng2 = ctx.sub_rng("malformed")
-    for _ in range(ctx.n(120, 3000)):
+    for _ in range(ctx.n(300, 6000)):
         streams.append(("malformed", gen_history(rng2, malformed=True)))
-    for h in small_scope(ctx.n(3, 5)):
+    for h in small_scope(ctx.n(4, 5)):
         streams.append(("small-scope", h))
     terms, metas = [], []
     for kind, events in streams:
@@ -720,7 +720,7 @@ def shrink(ctx, f):
 
 
 def replay(ctx, case):
-    c = case.get("case") or case.get("first_disagreement", {}).get("case") or case
+    c = case.get("case") or (case.get("first_disagreement") or {}).get("case") or case
     events = c.get("events")
     if not events:
         return {"fails": None, "note": "no event list in this replay file"}
